@@ -30,14 +30,42 @@ class ConcreteCtx:
     def __init__(self, model):
         self.model = model
         self.counters = {}
+        self.trace = []            # ghost events recorded by stub objects during a native replay
 
     def fresh_name(self, base):
         n = self.counters.get(base, 0)
         self.counters[base] = n + 1
         return base if n == 0 else '%s!%d' % (base, n)
 
-    def get(self, name, default):
+    def get(self, name, default, n=None):
+        """value of constant `name` in the model; n: the value is an index below n"""
         return self.model.get(name, default)
+
+
+class RandomCtx(ConcreteCtx):
+    """Concrete values chosen at random (seeded): used for the CPython cross-check of the interpreter."""
+
+    def __init__(self, rnd):
+        ConcreteCtx.__init__(self, {})
+        self.rnd = rnd
+
+    def get(self, name, default, n=None):
+        if name in self.model:
+            return self.model[name]
+        r = self.rnd
+        if n is not None:
+            v = r.randrange(n)
+        elif isinstance(default, bool):
+            v = r.random() < 0.5
+        elif isinstance(default, int):
+            v = r.choice([-2, -1, 0, 1, 2, 3, 5, 10]) if default == 0 else default + r.choice([0, 1, 2, 7])
+        elif isinstance(default, str):
+            v = ''.join(r.choice(['a', 'b', ' ', '\n', '@', '[', ']', "'", '"', '#', 'é'])
+                        for _ in range(r.randrange(0, 6)))
+        else:
+            v = default
+        self.model[name] = v
+        return v
 
 
 class Ty:
@@ -142,7 +170,7 @@ class OneOf(Ty):
     def concrete(self, cx, name):
         if len(self.values) == 1:
             return self.values[0]
-        return self.values[cx.get(cx.fresh_name(name + '.idx'), 0)]
+        return self.values[cx.get(cx.fresh_name(name + '.idx'), 0, len(self.values))]
 
 
 def EnumOf(cls, *extra):
@@ -162,7 +190,7 @@ class Union(Ty):
         return self.alts[i].make(interp, name)
 
     def concrete(self, cx, name):
-        i = cx.get(cx.fresh_name(name + '.alt'), 0)
+        i = cx.get(cx.fresh_name(name + '.alt'), 0, len(self.alts))
         return self.alts[i].concrete(cx, name)
 
 
@@ -210,6 +238,9 @@ class Iface(Ty):
     def __init__(self, iface):
         self.iface = iface
 
+    def resolved(self):
+        return self.iface() if isinstance(self.iface, types.FunctionType) else self.iface
+
     def make(self, interp, name):
         iface = self.iface() if isinstance(self.iface, types.FunctionType) else self.iface
         return new_opaque(interp, iface, name)
@@ -251,16 +282,52 @@ class ListOf(Ty):
         def elem(interp2, idx_term, uid=uid):
             return make_indexed(interp2, elem_ty, uid, idx_term)
 
-        return SList(n, elem, uid)
+        xs = SList(n, elem, uid, ident=(uid, ()))
+        xs.elem_ty = elem_ty
+        return xs
+
+    def concrete(self, cx, name):
+        n = cx.get(cx.fresh_name(name + '.len'), self.min_len, None)
+        if isinstance(cx, RandomCtx):
+            n = self.min_len + abs(n) % 4
+        n = max(self.min_len, min(int(n), 6))
+        return [self.elem.concrete(cx, '%s[%d]' % (name, i)) for i in range(n)]
+
+
+class MapOf(Ty):
+    """dict with symbolic contents (unbounded): keys of shape ``key`` (Str / Int), values of shape ``val``
+    (Str / Int / Bool, or ``Iface`` of a by-id interface).  Supports in, [], []=, del, get, pop,
+    setdefault, update, copy, dict(d), copy.copy(d), ==, clear; not iteration / len.
+    Opaque keys: objects whose interface names the attribute that decides their equality (``map_key``).
+    A value shape without scalar sort (``Any_``, an interface that is not by-id; default) means that the
+    values are not tracked: only the key set is symbolic, a read gives an arbitrary value of that shape."""
+
+    def __init__(self, key, val=None):
+        self.key = key
+        self.val = val
+
+    def make(self, interp, name):
+        from . import models
+        return models.new_smap(interp, name, self.key, self.val)
+
+
+class Derived:
+    """Interface attribute computed from the object by a sidecar function (interpreted on every read),
+    e.g. a property of the real class that only combines other attributes."""
+
+    def __init__(self, fn):
+        self.fn = fn
 
 
 class MListOf(Ty):
-    """A *mutable* list of symbolic length whose elements are ints / bools / strings or tuples of these
+    """A *mutable* list of symbolic length whose elements are ints / bools / strings, tuples of these, optional
+    values, indexed opaque objects (`RefTo`), opaque objects with an `mlist_codec`, or records (`Inst`) of these
     (pyvc.mlist.MList): results accumulated in loops, out-parameters.  In `M.loop(... modifies=...)` the
     list is havocked in place."""
 
-    def __init__(self, elem):
+    def __init__(self, elem, deque=False):
         self.elem = elem
+        self.deque = deque      # a collections.deque (without maxlen): additionally popleft / appendleft
 
     def shape(self):
         return _mshape(self.elem)
@@ -271,21 +338,46 @@ class MListOf(Ty):
         n = interp.st.fresh_int(name + '.len')
         interp.st.assume(n >= 0)
         m.length = n
+        m.is_deque = self.deque
         m.new_base()
         return m
+
+    def concrete(self, cx, name):
+        return ListOf(self.elem).concrete(cx, name)
+
+
+class RefTo(Ty):
+    """Element type for MListOf: an opaque object that is a function of `arity` integer index terms -- an element
+    of the symbolic sequence of interface objects whose uid is `uid[:-2]` (uid ends in '[]'), or the structured
+    result of a pure interface method ('<object uid>.<method>()')."""
+
+    def __init__(self, iface, uid, arity=1):
+        self.iface, self.uid, self.arity = iface, uid, arity
 
 
 def _mshape(ty):
     if isinstance(ty, FixedList):
         return ('tuple', tuple(_mshape(t) for t in ty.elems))
-    if isinstance(ty, Inst) and ty.tuple_items is None:
-        return ('inst', ty.cls, tuple((a, _mshape(ty.fields[a])) for a in sorted(ty.fields)))
+    if isinstance(ty, Opt):
+        return ('opt', _mshape(ty.inner))
+    if isinstance(ty, RefTo):
+        return ('ref', ty.iface, ty.uid, ty.arity)
+    if isinstance(ty, Iface):
+        iface = ty.iface() if isinstance(ty.iface, types.FunctionType) else ty.iface
+        if getattr(iface, 'mlist_codec', None) is not None:
+            return ('codec', iface)
+    if isinstance(ty, Inst):
+        return ('inst', ty.cls, tuple((k, _mshape(t)) for k, t in ty.fields.items()))
     if isinstance(ty, _Int):
         return ('int',)
     if isinstance(ty, _Bool):
         return ('bool',)
     if isinstance(ty, _Str):
         return ('str',)
+    if isinstance(ty, Iface):
+        from .mlist import record_shape
+        iface = ty.iface() if isinstance(ty.iface, types.FunctionType) else ty.iface
+        return record_shape(iface)
     raise Unsupported('MListOf element type %r' % (ty,))
 
 
@@ -316,12 +408,21 @@ class IterOf(Ty):
     """An iterator over a sequence of symbolic length (e.g. the lines of a file), positioned at its start.
     In clauses: `it.xs` is the underlying sequence, `it.pos` the number of items consumed so far."""
 
-    def __init__(self, elem):
+    def __init__(self, elem, at_start=True):
         self.elem = elem
+        self.at_start = at_start      # False: an arbitrary number of items has been consumed already
 
     def make(self, interp, name):
         from .models import SIter
-        return SIter(ListOf(self.elem).make(interp, name), 0)
+        xs = ListOf(self.elem).make(interp, name)
+        if self.at_start:
+            return SIter(xs, 0)
+        p = interp.st.fresh_int(name + '.pos')
+        interp.st.assume(z3.And(p >= 0, p <= xs.length))
+        return SIter(xs, SInt(p))
+
+    def concrete(self, cx, name):
+        return iter(ListOf(self.elem).concrete(cx, name))
 
 
 class FixedList(Ty):
@@ -338,55 +439,169 @@ class FixedList(Ty):
         return tuple(vals) if self.as_tuple else vals
 
 
+class FixedDict(Ty):
+    """A concrete dict with exactly the given (concrete) keys; the values have the given shapes."""
+
+    def __init__(self, **fields):
+        self.fields = fields
+
+    def make(self, interp, name):
+        return {k: t.make(interp, '%s[%s]' % (name, k)) for k, t in self.fields.items()}
+
+    def concrete(self, cx, name):
+        return {k: t.concrete(cx, '%s[%s]' % (name, k)) for k, t in self.fields.items()}
+
+
 class Opaq(Ty):
     """A value about which nothing is known and on which nothing is done (passed through)."""
 
     def make(self, interp, name):
         return OpaqueVal(interp.st.fresh_name(name))
 
+    def concrete(self, cx, name):
+        return _Anything(cx.fresh_name(name))
+
+
+class _Anything:
+    def __init__(self, name):
+        self.name = name
+
+    def __repr__(self):
+        return '<any %s>' % self.name
+
 
 Any_ = Opaq()
 
 
 class Custom(Ty):
-    def __init__(self, fn):
+    def __init__(self, fn, concrete=None):
         self.fn = fn
+        self.concrete_fn = concrete
 
     def make(self, interp, name):
         return self.fn(interp, name)
 
+    def concrete(self, cx, name):
+        if self.concrete_fn is None:
+            raise NoConcrete('Custom shape without a concrete reconstruction')
+        return self.concrete_fn(cx, name)
 
-def make_indexed(interp, ty, uid, idx_term):
+
+class Dependent(Ty):
+    """Shape of a result (or of a raised exception) that is built from the arguments of the call:
+    ``fn(interp, name, env)`` with ``env`` = parameters and ghosts by name.  Only meaningful where a
+    contract is *used* (call sites); e.g. a result object that carries one of the arguments."""
+
+    def __init__(self, fn):
+        self.fn = fn
+
+    def make(self, interp, name):
+        raise Unsupported('Dependent shape outside a call site')
+
+    def make_for_call(self, interp, name, env):
+        return self.fn(interp, name, env)
+
+
+def make_indexed(interp, ty, uid, idx_term, prefix=()):
     """Element of an SList at a symbolic index: scalar fields become applications of
-    uninterpreted functions to the index, so equal indices give equal elements."""
+    uninterpreted functions to the index, so equal indices give equal elements.
+    ``prefix``: index terms of the owner when the list is itself an attribute of an indexed object."""
     st = interp.st
+    idx = tuple(prefix) + (idx_term,)
+    sorts = [x.sort() if hasattr(x, "sort") else z3.IntSort() for x in idx]
     if isinstance(ty, _Int):
-        f = z3.Function(uid + '[]', z3.IntSort(), z3.IntSort())
-        t = f(idx_term)
+        f = z3.Function(uid + '[]', *(sorts + [z3.IntSort()]))
+        t = f(*idx)
         if ty.lo is not None:
-            st.assume(t >= ty.lo)
+            st.assume_unscoped(t >= ty.lo)
         if ty.hi is not None:
-            st.assume(t <= ty.hi)
+            st.assume_unscoped(t <= ty.hi)
         return SInt(t)
     if isinstance(ty, _Bool):
-        f = z3.Function(uid + '[]', z3.IntSort(), z3.BoolSort())
-        return SBool(f(idx_term))
+        f = z3.Function(uid + '[]', *(sorts + [z3.BoolSort()]))
+        return SBool(f(*idx))
     if isinstance(ty, _Str):
-        f = z3.Function(uid + '[]', z3.IntSort(), z3.StringSort())
-        return SStr(f(idx_term))
+        f = z3.Function(uid + '[]', *(sorts + [z3.StringSort()]))
+        return SStr(f(*idx))
     if isinstance(ty, Iface):
         iface = ty.iface() if isinstance(ty.iface, types.FunctionType) else ty.iface
-        return new_opaque(interp, iface, uid + '[]', index=(idx_term,))
+        return new_opaque(interp, iface, uid + '[]', index=idx)
     if isinstance(ty, Opaq):
-        return OpaqueVal('%s[%s]' % (uid, z3.simplify(idx_term)))
+        return OpaqueVal('%s[%s]' % (uid, ','.join(str(z3.simplify(t)) for t in idx)))
     if isinstance(ty, FixedList):
-        vals = [make_indexed(interp, t, '%s.%d' % (uid, i), idx_term) for i, t in enumerate(ty.elems)]
+        vals = [make_indexed(interp, t, '%s.%d' % (uid, i), idx_term, prefix) for i, t in enumerate(ty.elems)]
         return tuple(vals) if ty.as_tuple else vals
+    return indexed_value(interp, ty, uid + '[]', idx)
+
+
+def indexed_value(interp, ty, base, idx):
+    """A value of shape ``ty`` that is a function of the index tuple ``idx`` (element of a symbolic-length
+    sequence, or a component of such an element): scalars are applications of uninterpreted functions
+    named after ``base``, real instances (`Inst`) are built from indexed fields."""
+    st = interp.st
+    idx = tuple(idx)
+    sorts = [x.sort() if hasattr(x, 'sort') else z3.IntSort() for x in idx]
+    if isinstance(ty, _Int):
+        t = z3.Function(base, *(sorts + [z3.IntSort()]))(*idx)
+        if ty.lo is not None:
+            st.assume_unscoped(t >= ty.lo)
+        if ty.hi is not None:
+            st.assume_unscoped(t <= ty.hi)
+        return SInt(t)
+    if isinstance(ty, _Bool):
+        return SBool(z3.Function(base, *(sorts + [z3.BoolSort()]))(*idx))
+    if isinstance(ty, _Str):
+        return SStr(z3.Function(base, *(sorts + [z3.StringSort()]))(*idx))
     if isinstance(ty, Opt):
-        f = z3.Function(uid + '[].is_none', z3.IntSort(), z3.BoolSort())
-        return SOpt(f(idx_term), make_indexed(interp, ty.inner, uid, idx_term))
+        isn = z3.Function(base + '.is_none', *(sorts + [z3.BoolSort()]))(*idx)
+        return SOpt(isn, indexed_value(interp, ty.inner, base, idx))
     if isinstance(ty, Const):
         return ty.value
+    if isinstance(ty, OneOf):
+        if len(ty.values) == 1:
+            return ty.values[0]
+        t = z3.Function(base + '.idx', *(sorts + [z3.IntSort()]))(*idx)
+        st.assume_unscoped(z3.And(t >= 0, t < len(ty.values)))
+        return SChoice(t, ty.values)
+    if isinstance(ty, Involution):
+        raise Unsupported('indexed element of type Involution (use it as an attribute)')
+    if isinstance(ty, Iface):
+        iface = ty.iface() if isinstance(ty.iface, types.FunctionType) else ty.iface
+        return new_opaque(interp, iface, base, index=idx)
+    if isinstance(ty, Opaq):
+        return OpaqueVal('%s(%s)' % (base, ','.join(str(z3.simplify(i)) for i in idx)))
+    if isinstance(ty, Inst):
+        cls = ty.cls
+        if ty.tuple_items is not None:
+            obj = tuple.__new__(cls, [indexed_value(interp, t, '%s[%d]' % (base, i), idx)
+                                      for i, t in enumerate(ty.tuple_items)])
+        elif issubclass(cls, BaseException):
+            obj = cls.__new__(cls)
+        else:
+            obj = object.__new__(cls)
+        for k, t in ty.fields.items():
+            v = indexed_value(interp, t, '%s.%s' % (base, k), idx) if isinstance(t, Ty) else t
+            object.__setattr__(obj, k, v)
+        if ty.invariant is not None:
+            st.assume_unscoped(interp.truth(interp.call(ty.invariant, [obj], {})))
+        return obj
+    if isinstance(ty, FixedList):
+        vals = [indexed_value(interp, t, '%s[%d]' % (base, i), idx) for i, t in enumerate(ty.elems)]
+        return tuple(vals) if ty.as_tuple else vals
+    if isinstance(ty, FixedDict):
+        return {k: indexed_value(interp, t, '%s[%s]' % (base, k), idx) for k, t in ty.fields.items()}
+    if isinstance(ty, ListOf):
+        n = z3.Function(base + '.len', *(sorts + [z3.IntSort()]))(*idx)
+        st.assume_unscoped(n >= ty.min_len)
+        elem_ty = ty.elem
+
+        def elem(interp2, idx_term, base=base, idx=idx):
+            return indexed_value(interp2, elem_ty, base + '[]', tuple(idx) + (idx_term,))
+
+        out = SList(n, elem, '%s<%s>' % (base, ','.join(z3.simplify(i).sexpr() for i in idx)),
+                    ident=(base, tuple(idx)))
+        out.elem_ty = elem_ty
+        return out
     raise Unsupported('indexed element of type %r' % (ty,))
 
 
@@ -428,12 +643,43 @@ class Interface:
     attrs = {}
     attr_raises = {}
     methods = {}
+    computed = {}          # {name: fn(interp, obj) -> value}: attributes that are functions of the object
     invariant = None
     truthy = True
 
 
-def new_opaque(interp, iface, name, index=(), preset=None):
+def universe_of(iface):
+    """Name of the id space of a by-id interface: shared by all its sub-interfaces."""
+    root = iface
+    for k in iface.__mro__:
+        if k.__dict__.get('by_id'):
+            root = k
+    return 'U.' + root.__name__
+
+
+def opaque_of_id(interp, iface, id_term):
+    """The object of by-id interface ``iface`` with the given id: all its attributes are functions of the id."""
+    return new_opaque(interp, iface, universe_of(iface), index=(id_term,), _is_id=True)
+
+
+def same_object(a, b):
+    """Identity of two opaque objects where the engine can tell: by-id objects of one universe."""
+    ia, ib = a._pv_iface, b._pv_iface
+    if getattr(ia, 'by_id', False) and getattr(ib, 'by_id', False) and isinstance(ia, type) and isinstance(ib, type):
+        if universe_of(ia) == universe_of(ib) and len(a._pv_index) == 1 and len(b._pv_index) == 1:
+            return wrap(a._pv_index[0] == b._pv_index[0])
+    return None
+
+
+def new_opaque(interp, iface, name, index=(), preset=None, _is_id=False):
     st = interp.st
+    if getattr(iface, 'by_id', False) and not _is_id:
+        # objects identified by an integer id (ghost address): a fresh id, or a function of the owner's index
+        if index:
+            idt = z3.Function(name + ".id", *([x.sort() for x in index] + [z3.IntSort()]))(*index)
+        else:
+            idt = st.fresh_int(name + '.id')
+        name, index = universe_of(iface), (idt,)
     uid = st.fresh_name(name) if not index else name
     o = Opaque(iface, uid)
     if hasattr(interp, 'note_new_object'):
@@ -449,11 +695,11 @@ def new_opaque(interp, iface, name, index=(), preset=None):
                 break
     if inv is not None:
         f = inv.__func__ if isinstance(inv, staticmethod) else inv
-        assume_pred(interp, f, o)
+        assume_pred(interp, f, o, unscoped=True)
     return o
 
 
-def assume_pred(interp, pred, *args):
+def assume_pred(interp, pred, *args, unscoped=False):
     """Assume a sidecar predicate; parameters beyond the given arguments are ghosts, by name."""
     from .loops import _param_names
     names = _param_names(pred)
@@ -462,7 +708,11 @@ def assume_pred(interp, pred, *args):
         if n not in interp.reg.ghost_env:
             raise Unsupported('predicate %s needs ghost %r which is not in scope' % (getattr(pred, '__name__', pred), n))
         extra.append(interp.reg.ghost_env[n])
-    interp.st.assume(interp.truth(interp.call(pred, list(args) + extra, {})))
+    v = interp.truth(interp.call(pred, list(args) + extra, {}))
+    if unscoped:
+        interp.st.assume_unscoped(v)
+    else:
+        interp.st.assume(v)
 
 
 def _iface_lookup(iface, table, name):
@@ -474,25 +724,11 @@ def _iface_lookup(iface, table, name):
 
 
 def _indexed_scalar(interp, o, name, ty):
-    """Scalar attribute of an indexed opaque: function of the index."""
+    """Attribute of an indexed opaque: function of the index."""
     idx = o._pv_index
     st = interp.st
     base = '%s.%s' % (o._pv_uid, name)
     sorts = [x.sort() for x in idx]
-    if isinstance(ty, _Int):
-        t = z3.Function(base, *(sorts + [z3.IntSort()]))(*idx)
-        if ty.lo is not None:
-            st.assume(t >= ty.lo)
-        if ty.hi is not None:
-            st.assume(t <= ty.hi)
-        return SInt(t)
-    if isinstance(ty, _Bool):
-        return SBool(z3.Function(base, *(sorts + [z3.BoolSort()]))(*idx))
-    if isinstance(ty, _Str):
-        return SStr(z3.Function(base, *(sorts + [z3.StringSort()]))(*idx))
-    if isinstance(ty, Opt):
-        isn = z3.Function(base + '.is_none', *(sorts + [z3.BoolSort()]))(*idx)
-        return SOpt(isn, _indexed_scalar(interp, o, name, ty.inner))
     if isinstance(ty, Involution):
         return ty.make_attr(interp, base, o, index=idx)
     if isinstance(ty, Iface):
@@ -500,11 +736,21 @@ def _indexed_scalar(interp, o, name, ty):
         return new_opaque(interp, iface, base, index=idx)
     if isinstance(ty, OneOf):
         t = z3.Function(base + '.idx', *(sorts + [z3.IntSort()]))(*idx)
-        st.assume(z3.And(t >= 0, t < len(ty.values)))
+        st.assume_unscoped(z3.And(t >= 0, t < len(ty.values)))
         return SChoice(t, ty.values) if len(ty.values) > 1 else ty.values[0]
     if isinstance(ty, Const):
         return ty.value
-    raise Unsupported('indexed attribute of type %r' % (ty,))
+    if isinstance(ty, ListOf):
+        n = z3.Function(base + '.len', *(sorts + [z3.IntSort()]))(*idx)
+        st.assume_unscoped(n >= ty.min_len)
+        elem_ty = ty.elem
+
+        def elem(interp2, j, base=base, idx=idx):
+            return make_indexed(interp2, elem_ty, base, j, prefix=idx)
+
+        return SList(n, elem, '%s<%s>' % (base, ','.join(z3.simplify(t).sexpr() for t in idx)),
+                     ident=(base, tuple(idx)))
+    return indexed_value(interp, ty, base, idx)
 
 
 class Registry:
@@ -514,40 +760,62 @@ class Registry:
         self.contracts = {}        # qualified name -> Contract
         self.by_func = {}          # function object -> Contract
         self.models = {}           # callable -> model
+        self.scoped_models = {}    # property id -> {callable -> model}: Module.model(...) registrations apply only
+        #                            while a function of that property is verified (no cross-property clashes)
+        self.current_props = ()    # property ids of the function under verification
         self.loops = {}            # (qualified name, ordinal) -> LoopSpec
         self.loops_by_code = {}
         self.under_verification = None
         self.ghost_env = {}
         self.transparent = set()
         self.missing = []
+        self.local_shapes = {}     # FuncInfo -> {local name: MListOf}
 
     # ----- registration ---------------------------------------------------------
     def add_contract(self, c):
-        self.contracts[c.qname] = c
+        """Several sidecar modules may give the same function a contract (e.g. C04 verifies
+        `_do_execute` in detail while C01 only needs a trusted summary of it).  The first one is registered
+        under the qualified name, further ones under 'qname#<module property>'."""
+        key = c.qname
+        if key in self.contracts:
+            key = '%s#%s' % (c.qname, getattr(getattr(c, 'module', None), 'prop', '?'))
+            n = 2
+            while key in self.contracts:
+                key = '%s#%s.%d' % (c.qname, getattr(getattr(c, 'module', None), 'prop', '?'), n)
+                n += 1
+        c.key = key
+        self.contracts[key] = c
 
     def link(self):
         """Resolve qualified names against the imported current tree."""
         self.by_func = {}
         self.missing = []
-        for q, c in self.contracts.items():
+        for key, c in self.contracts.items():
+            q = c.qname
             try:
                 obj, owner = frontend.resolve_qualified(q)
             except LookupError as e:
-                self.missing.append((q, str(e)))
+                self.missing.append((key, str(e)))
                 continue
             f = frontend.raw_function(obj)
             if not isinstance(f, types.FunctionType):
-                self.missing.append((q, 'contract target is not a python function: %r' % (obj,)))
+                self.missing.append((key, 'contract target is not a python function: %r' % (obj,)))
                 continue
             c.func = f
             c.owner = owner
             c.raw = obj
-            self.by_func[f] = c
+            self.by_func.setdefault(f, []).append(c)
             c.returns_value = None
+            if c.locals:
+                try:
+                    self.local_shapes[frontend.funcinfo_of(f)] = c.locals
+                except Exception as e:
+                    self.missing.append((q, 'locals=: cannot locate the source (%s)' % e))
         self.loops_by_code = {}
         for (q, ordinal), ls in self.loops.items():
             try:
-                obj, owner = frontend.resolve_qualified(q)
+                # a loop of a nested function: only the enclosing function can be resolved statically
+                obj, owner = frontend.resolve_qualified(q.partition('.<locals>')[0])
             except LookupError as e:
                 self.missing.append((q, str(e)))
                 continue
@@ -555,11 +823,58 @@ class Registry:
             self.loops_by_code[(f.__code__, ordinal)] = ls
 
     def contract_for(self, func):
-        return self.by_func.get(func)
+        """The contract used at a call site: the one of the sidecar module whose function is being
+        verified if it has one, else the first verified (non-trusted) one, else the first."""
+        cands = self.by_func.get(func)
+        if not cands:
+            return None
+        cur = getattr(self, 'current_module', None)
+        for c in cands:
+            if getattr(c, 'module', None) is cur and cur is not None:
+                return c
+        for c in cands:
+            if not c.trusted:
+                return c
+        # an ASSUMED contract belongs to the module that states (and lists) the assumption: other modules
+        # see the real body, unless the assumption is declared shared
+        for c in cands:
+            if getattr(c, 'shared', False) or cur is None:
+                return c
+        return None
+
+    def args_fit_contract(self, interp, c, func, args, kwargs):
+        from . import verify
+        try:
+            bound = verify.bind_call_args(func, args, kwargs)
+        except Unsupported:
+            return False
+        for name, ty in c.params.items():
+            if name in bound and not _fits(ty, bound[name]):
+                return False
+        return True
 
     def model_for(self, f):
         try:
-            return self.models.get(f)
+            # a callable modelled by several sidecar modules: the module whose function is being verified sees
+            # its own model; then the models of the modules it builds on (python imports between sidecar
+            # modules: C03 builds on C01's models, C17 on C04's); the ghost file system of C04 and the path
+            # model of C12 do not see each other
+            cur = getattr(self, 'current_module', None)
+            own = getattr(self, 'module_models', {}).get(cur)
+            m = own.get(f) if own else None
+            if m is not None:
+                return m
+            for p in getattr(self, 'current_scope', None) or getattr(self, 'current_props', ()):
+                m = self.scoped_models.get(p, {}).get(f)
+                if m is not None:
+                    return m
+            m = self.models.get(f)
+            if m is None:
+                # library models registered with pyvc.models.model(...) (also for the ghost primitives of
+                # pyvc/pymodels, which are python functions in an interpretable file)
+                from . import models as _models
+                m = _models.MODELS.get(f)
+            return m
         except TypeError:
             return None
 
@@ -575,6 +890,8 @@ class Registry:
         if name in o._pv_attrs:
             return o._pv_attrs[name]
         ty = _iface_lookup(iface, 'attrs', name)
+        if isinstance(ty, Derived):
+            return interp.call(ty.fn, [o], {})
         if ty is not None:
             if o._pv_index:
                 v = _indexed_scalar(interp, o, name, ty)
@@ -582,6 +899,12 @@ class Registry:
                 v = ty.make_attr(interp, '%s.%s' % (o._pv_uid, name), o)
             else:
                 v = ty.make(interp, '%s.%s' % (o._pv_uid, name)) if isinstance(ty, Ty) else ty
+            o._pv_attrs[name] = v
+            return v
+        comp = _iface_lookup(iface, 'computed', name)
+        if comp is not None:
+            # an attribute that is a function of the object: computed on first access, then cached
+            v = comp(interp, o)
             o._pv_attrs[name] = v
             return v
         m = _iface_lookup(iface, 'methods', name)
@@ -599,7 +922,8 @@ class Registry:
 
     def opaque_has(self, interp, o, name):
         iface = o._pv_iface
-        return _iface_lookup(iface, 'attrs', name) is not None or _iface_lookup(iface, 'methods', name) is not None
+        return _iface_lookup(iface, 'attrs', name) is not None or _iface_lookup(iface, 'methods', name) is not None \
+            or _iface_lookup(iface, 'computed', name) is not None
 
     def opaque_type(self, interp, o):
         return o._pv_cls
@@ -664,12 +988,56 @@ def _returns_a_value(f):
         return True
     if info.is_generator:
         return True
-    from .loops import _walk_own
-    for n in _walk_own(info.node):
+    todo = list(info.node.body)
+    while todo:
+        n = todo.pop()
+        if isinstance(n, (_ast.FunctionDef, _ast.AsyncFunctionDef, _ast.Lambda, _ast.ClassDef)):
+            continue        # a nested definition: its returns are not returns of this function
         if isinstance(n, _ast.Return) and n.value is not None and not (
                 isinstance(n.value, _ast.Constant) and n.value.value is None):
             return True
+        todo.extend(_ast.iter_child_nodes(n))
     return False
+
+
+def _fits(ty, v):
+    """Could the value have been produced by the shape?  (conservative for shapes that cannot be inspected)"""
+    if isinstance(v, SChoice):
+        return all(_fits(ty, a) for a in v.alts)
+    if isinstance(ty, Opt):
+        if v is None:
+            return True
+        if isinstance(v, SOpt):
+            return _fits(ty.inner, v.val)
+        return _fits(ty.inner, v)
+    if isinstance(v, SOpt):
+        return False
+    if isinstance(ty, Iface):
+        iface = ty.iface() if isinstance(ty.iface, types.FunctionType) else ty.iface
+        return isinstance(v, Opaque) and isinstance(v._pv_iface, type) and issubclass(v._pv_iface, iface)
+    if isinstance(ty, Inst):
+        if isinstance(v, (Opaque, Sym)) or not isinstance(v, ty.cls):
+            return False
+        d = getattr(v, '__dict__', {})
+        return all(_fits(t, d[k]) for k, t in ty.fields.items() if isinstance(t, Ty) and k in d)
+    if isinstance(ty, _Int):
+        return isinstance(v, (SInt, int)) and not isinstance(v, bool)
+    if isinstance(ty, _Bool):
+        return isinstance(v, (SBool, bool))
+    if isinstance(ty, _Str):
+        return isinstance(v, (SStr, str))
+    if isinstance(ty, ListOf):
+        if isinstance(v, (list, tuple)):
+            return all(_fits(ty.elem, x) for x in v)
+        if isinstance(v, SList):
+            et = getattr(v, 'elem_ty', None)
+            if isinstance(et, Iface) and isinstance(ty.elem, Iface):
+                a = et.iface() if isinstance(et.iface, types.FunctionType) else et.iface
+                b = ty.elem.iface() if isinstance(ty.elem.iface, types.FunctionType) else ty.elem.iface
+                return isinstance(a, type) and issubclass(a, b)
+            return True
+        return False
+    return True
 
 
 class OpaqueMethod:
@@ -695,14 +1063,7 @@ def call_opaque_method(interp, o, name, m, args, kwargs):
         st.assume(ok)
     if m.event is not None:
         st.emit(m.event, o, tuple(args))
-    if m.may_raise:
-        k = st.choose(1 + len(m.may_raise))
-        if k > 0:
-            factory = m.may_raise[k - 1]
-            exc = factory(interp, o) if isinstance(factory, types.FunctionType) else factory()
-            if m.event is not None:
-                st.emit(m.event + ':raised', o, exc)
-            raise PyRaise(exc)
+    key = None
     if m.pure:
         flat = []
         for a in args:
@@ -713,25 +1074,67 @@ def call_opaque_method(interp, o, name, m, args, kwargs):
         args = flat
         key = ('__call__', name, tuple(z3.simplify(to_z3(a)).sexpr() if isinstance(a, (Sym, int, str, bool))
                                         and not isinstance(a, (SOpt, SChoice, SList)) else id(a) for a in args))
+        # a pure method is a function of (object, arguments): the outcome of an earlier call -- value or
+        # exception -- is the outcome of this one
         if key in o._pv_attrs:
             return o._pv_attrs[key]
-        if all(isinstance(a, (SInt, SBool, SStr, int, str, bool)) for a in args) and \
-                isinstance(m.returns, (_Int, _Bool, _Str)):
-            sorts = [x.sort() for x in o._pv_index] + [to_z3(a).sort() for a in args]
+        if ('__raised__', key) in o._pv_attrs:
+            raise PyRaise(o._pv_attrs[('__raised__', key)])
+    if m.may_raise:
+        k = st.choose(1 + len(m.may_raise))
+        if k > 0:
+            factory = m.may_raise[k - 1]
+            exc = factory(interp, o) if isinstance(factory, types.FunctionType) else factory()
+            if m.event is not None:
+                st.emit(m.event + ':raised', o, exc)
+            if key is not None:
+                o._pv_attrs[('__raised__', key)] = exc
+            raise PyRaise(exc)
+    if m.pure:
+        terms = _pure_arg_terms(interp, args)
+        scalar_args = all(isinstance(a, (SInt, SBool, SStr, int, str, bool)) for a in args)
+        if terms is not None and isinstance(m.returns, (_Int, _Bool, _Str)):
+            # a ghost function of (object, arguments): scalars, by-id objects (their id), symbolic maps (their arrays)
+            sorts = [x.sort() for x in o._pv_index] + [t.sort() for t in terms]
             rs = {_Int: z3.IntSort(), _Bool: z3.BoolSort(), _Str: z3.StringSort()}[type(m.returns)]
             f = z3.Function('%s.%s()' % (o._pv_uid, name), *(sorts + [rs]))
-            r = wrap(f(*(list(o._pv_index) + [to_z3(a) for a in args])))
+            r = wrap(f(*(list(o._pv_index) + terms)))
             if isinstance(r, SInt) and m.returns.lo is not None:
                 st.assume(r.t >= m.returns.lo)
-        elif all(isinstance(a, (SInt, SBool, SStr, int, str, bool)) for a in args) and isinstance(m.returns, Iface):
-            # structured result of a pure method: an opaque object indexed by (object index, arguments),
-            # i.e. its attributes are functions of the arguments
-            iface = m.returns.iface() if isinstance(m.returns.iface, types.FunctionType) else m.returns.iface
-            r = new_opaque(interp, iface, '%s.%s()' % (o._pv_uid, name),
-                           index=tuple(o._pv_index) + tuple(to_z3(a) for a in args))
+            if m.may_raise and key is not None:
+                # the first outcome (here: a value) is the outcome of every later call with these arguments
+                o._pv_attrs[key] = r
         else:
-            r = m.returns.make(interp, '%s.%s()' % (o._pv_uid, name)) if m.returns is not None else None
-        o._pv_attrs[key] = r
+            key = ('__call__', name, tuple(z3.simplify(to_z3(a)).sexpr() if isinstance(a, (Sym, int, str, bool))
+                                            and not isinstance(a, (SOpt, SChoice, SList)) else id(a) for a in args))
+            if key in o._pv_attrs:
+                return o._pv_attrs[key]
+            if o._pv_index and not args and m.returns is not None and not isinstance(m.returns, Iface):
+                # result of a pure zero-argument method of an indexed object: a function of the index
+                r = _indexed_scalar(interp, o, name + '()', m.returns)
+            elif scalar_args and isinstance(m.returns, Iface) and (args or o._pv_index):
+                # structured result of a pure method: an opaque object indexed by (object index, arguments),
+                # i.e. its attributes are functions of the arguments
+                iface = m.returns.iface() if isinstance(m.returns.iface, types.FunctionType) else m.returns.iface
+                r = new_opaque(interp, iface, '%s.%s()' % (o._pv_uid, name),
+                               index=tuple(o._pv_index) + tuple(to_z3(a) for a in args))
+            elif m.returns is not None and args and all(isinstance(a, (SInt, SBool, SStr, int, str, bool, Opaque))
+                                                        for a in args) \
+                    and (o._pv_index or any(isinstance(a, Opaque) and a._pv_index for a in args)):
+                # a function of (object, arguments) where arguments are scalars or (indexed) opaque objects:
+                # the indices of the opaque arguments are arguments of the function(s) standing for the result
+                name_parts, idx_terms = [], list(o._pv_index)
+                for a in args:
+                    if isinstance(a, Opaque):
+                        name_parts.append(a._pv_uid)
+                        idx_terms.extend(a._pv_index)
+                    else:
+                        idx_terms.append(to_z3(a))
+                r = indexed_value(interp, m.returns, '%s.%s(%s)' % (o._pv_uid, name, ','.join(name_parts)),
+                                  tuple(idx_terms))
+            else:
+                r = m.returns.make(interp, '%s.%s()' % (o._pv_uid, name)) if m.returns is not None else None
+            o._pv_attrs[key] = r
     else:
         r = m.returns.make(interp, '%s.%s()' % (o._pv_uid, name)) if m.returns is not None else None
     if m.ensures is not None:
@@ -741,13 +1144,29 @@ def call_opaque_method(interp, o, name, m, args, kwargs):
     return r
 
 
+def _pure_arg_terms(interp, args):
+    from . import models
+    out = []
+    for a in args:
+        if isinstance(a, (SOpt, SChoice)):
+            return None
+        if isinstance(a, models.SMap):
+            out.extend(a.terms())
+            continue
+        t = models.term_of_value(a)
+        if t is None:
+            return None
+        out.append(t)
+    return out
+
+
 # ============================================================================ contracts
 
 class Contract:
     def __init__(self, qname, params=None, ghosts=None, requires=None, returns=None, ensures=None,
                  raises=None, may_raise=(), raises_only=None, modifies=None, props=(), setup=None,
                  old=None, pure_result=False, notes='', concretize=None, replay=None, trusted=False,
-                 cover=True, inline=False, event=None, yields=None):
+                 cover=True, inline=False, event=None, yields=None, shared=False, locals=None):
         self.qname = qname
         self.params = params or {}
         self.ghosts = ghosts or {}
@@ -757,7 +1176,12 @@ class Contract:
         self.raises = raises or {}          # {ExcClass: {'when': pred or None, 'ensures': pred or None}}
         self.may_raise = tuple(may_raise)   # exception classes the function may raise non-deterministically
         self.raises_only = raises_only      # tuple of exception classes or None (= not checked)
-        self.modifies = modifies
+        # call sites: parameters (or 'param.attr.attr' paths) that are mutable symbolic lists / iterators whose
+        # contents the function changes: havocked between `requires`/`old` and `ensures`
+        self.modifies = modifies if isinstance(modifies, dict) else tuple(modifies or ())
+        # {local name: MListOf(...)}: a list literal assigned to this local is represented as a symbolic
+        # mutable list from the start (needed when the list is later handed to a contract that modifies it)
+        self.locals = locals or {}
         self.props = tuple(props)
         self.setup = setup                  # optional: (interp) -> dict of extra ghost bindings / state
         self.old = old                      # optional: callable(args...) -> snapshot, evaluated before the call
@@ -765,6 +1189,7 @@ class Contract:
         self.replay = replay
         self.trusted = trusted              # True: assumed contract (not verified); listed in evidence
         self.cover = cover
+        self.shared = shared                # trusted contracts: also applied when other modules' functions are verified
         self.yields = yields                # generator functions: shape of the items (ListOf(...)) for call sites
         self.event = event                  # ghost event emitted at call sites that use the contract
         self.inline = inline                # verified, but call sites interpret the body (tiny helpers)
@@ -774,7 +1199,7 @@ class Contract:
 
 
 class LoopSpec:
-    def __init__(self, qname, ordinal, invariant, modifies=None, decreases=None, ghosts=None, note=''):
+    def __init__(self, qname, ordinal, invariant, modifies=None, decreases=None, ghosts=None, note='', entry=None):
         self.qname = qname
         self.ordinal = ordinal
         self.invariant = invariant
@@ -782,6 +1207,7 @@ class LoopSpec:
         self.decreases = decreases
         self.ghosts = ghosts or {}
         self.note = note
+        self.entry = entry          # optional snapshot expression evaluated at loop entry: `_entry` in the invariant
 
 
 class Module:
@@ -793,6 +1219,11 @@ class Module:
         self.loops = []
         self.models = {}
         self.checks = []       # extra obligation generators: (name, fn(ctx))
+        # contracts of OTHER sidecar modules at call sites of this module's functions:
+        #   'imports' (default) use the contracts of the sidecar modules this module imports (it was written
+        #   against them) and interpret the real body otherwise; 'apply' use every contract; 'fit' only when
+        #   the arguments have the shapes the contract is stated for; 'ignore' never
+        self.foreign_contracts = 'imports'
         self.bounded_checks = []   # bounded stand-ins: (name, fn(ctx)) -- never counted as proved
         self.transparent = []
         self.assumptions = []
@@ -800,6 +1231,7 @@ class Module:
 
     def contract(self, qname, **kw):
         c = Contract(qname, **kw)
+        c.module = self
         if not c.props:
             c.props = (self.prop,)
         self.contracts.append(c)
